@@ -3,7 +3,7 @@ EXTENDS Registration, Json, TLC
 CONSTANT MaxOpts, MaxTags
 
 Names == {"svc", "my svc", ""}
-Addrs == {[addr |-> "10.0.0.1", v6 |-> FALSE], [addr |-> "fd00::1", v6 |-> TRUE], [addr |-> "", v6 |-> FALSE]}   \* "" = use the node address 10.9.9.9
+Addrs == {[addr |-> "10.0.0.1", v6 |-> FALSE], [addr |-> "fd00::1", v6 |-> TRUE], [addr |-> "::ffff:10.0.0.7", v6 |-> TRUE], [addr |-> "", v6 |-> FALSE]}   \* "" = use the node address 10.9.9.9
 Prefixes == {"/x", "h.com/x", "H.COM/x/Y", ":1234", "/[", "nohost.com"}
 MCLowerHost == [p \in Prefixes |-> IF p = "H.COM/x/Y" THEN "h.com/x/Y" ELSE p]
 MCBadNames == {"my svc", ""}
@@ -18,6 +18,7 @@ Opts == {Opt("weight", "0.5"), Opt("weight", "abc"), Opt("weight", "Inf"), Opt("
 Tags == {"plain", "a\"quote", "back\\slash", "@nonascii"}   \* "@nonascii" is spelled with non-ASCII letters by the harness
 MCQuoteTokens == {"a\"quote", "q=a\"b"}
 
+Denote2(r2) == [svc |-> r2.name, src |-> r2.prefix, dst |-> Dst(r2), weight |-> "", tags |-> r2.tags, opts |-> {}]
 VARIABLES phase, cur
 gvars == <<vars, phase, cur>>
 GInit == Init /\ phase = "opts" /\ cur = [NoReg EXCEPT !.port = "8080"]
@@ -35,13 +36,19 @@ AddTag == /\ phase = "tags" /\ Len(cur.tags) < MaxTags
           /\ \E t \in Tags : t \notin SeqToSet(cur.tags) /\ cur' = [cur EXCEPT !.tags = Append(@, t)]
           /\ UNCHANGED <<vars, phase>>
 Run == /\ phase = "tags" /\ phase' = "ran"
-       /\ \E n \in Names, a \in Addrs, p \in Prefixes :
-            LET r == [cur EXCEPT !.name = n, !.addr = a.addr, !.v6 = a.v6, !.prefix = p] IN
+       /\ \E n \in Names, a \in Addrs, p \in Prefixes, sec \in {"", "/second"} :
+            LET r == [cur EXCEPT !.name = n, !.addr = a.addr, !.v6 = a.v6, !.prefix = p]
+                \* an optional SECOND routing tag without options, registered after the first one: it
+                \* denotes a plain target of its own, whatever the options of the first tag are
+                r2 == [r EXCEPT !.prefix = sec, !.opts = <<>>] IN
             /\ cur' = r /\ reg' = r /\ pc' = "done"
             /\ result' = IF Expressible(r) THEN [kind |-> "accepted", target |-> Denote(r)] ELSE [kind |-> "dropped"]
             /\ PrintT(ToJson([reg |-> [name |-> r.name, addr |-> r.addr, nodeaddr |-> r.nodeaddr, port |-> r.port, prefix |-> r.prefix,
                                        opts |-> [i \in DOMAIN r.opts |-> r.opts[i].txt], tags |-> r.tags],
                               expressible |-> Expressible(r),
+                              second |-> sec,
+                              second_expressible |-> (sec # "" /\ r.name \notin BadNames /\ \A i \in DOMAIN r.tags : r.tags[i] \notin QuoteTokens),
+                              denote2 |-> IF sec # "" /\ r.name \notin BadNames THEN Denote2(r2) ELSE [svc |-> ""],
                               denote |-> IF Expressible(r) THEN Denote(r) ELSE [svc |-> ""]]))
 GNext == AddOpt \/ ToTags \/ AddTag \/ Run
 GSpec == GInit /\ [][GNext]_gvars
